@@ -38,7 +38,9 @@ func haversineDistance(x, y []float32) float32 {
 	// Please see the formula in the link above for more details.
 	sinDlat, sinDlon := math.Sin(dlat/2), math.Sin(dlon/2)
 	a := sinDlat*sinDlat + math.Cos(latx)*math.Cos(laty)*sinDlon*sinDlon
-	c := 2 * math.Asin(math.Sqrt(a))
+	// For (nearly) antipodal points rounding can push a just above 1, where
+	// the arcsine is not defined.
+	c := 2 * math.Asin(math.Min(1, math.Sqrt(a)))
 	return float32(earthRadius * c)
 }
 
